@@ -198,7 +198,11 @@ func (s *Sim) abstractFinal() string {
 	var parts []string
 	byNode := map[string][]string{}
 	for _, p := range s.Store.Pods() {
-		byNode[podNode(p)] = append(byNode[podNode(p)], fmt.Sprintf("%s/%v/%s", letterOfPod(p), podReady(p), resOf(p)))
+		lbl := ""
+		if _, has := p.Labels[canaryLabel]; has {
+			lbl = "/canary-label"
+		}
+		byNode[podNode(p)] = append(byNode[podNode(p)], fmt.Sprintf("%s/%v/%s%s", letterOfPod(p), podReady(p), resOf(p), lbl))
 	}
 	for _, n := range s.Store.Nodes() {
 		ps := byNode[n.Name]
